@@ -510,9 +510,11 @@ func normalise(b []byte) []byte {
 // ---------------------------------------------------------------------------
 
 var scopeSpell = map[string][]string{
-	"/secret":       {"/secret", "/secret/", "/SECRET", `"/secret"`, "/Secret/"},
-	"/internal":     {"/internal", "/internal/", "/INTERNAL"},
-	"/noindex/priv": {"/noindex/priv", "/noindex/priv/", "/NOINDEX/priv"},
+	// the last three of each: spellings the Casketfile accepts that path.Clean shortens ("any argument
+	// spelling the Casketfile accepts"; Path.Matches documents that it cleans the rule path)
+	"/secret":       {"/secret", "/secret/", "/SECRET", `"/secret"`, "/Secret/", "//secret", "/./secret/", "/public/../secret"},
+	"/internal":     {"/internal", "/internal/", "/INTERNAL", "/internal//", "/./internal", "/public/../internal"},
+	"/noindex/priv": {"/noindex/priv", "/noindex/priv/", "/NOINDEX/priv", "/noindex//priv", "/noindex/./priv/", "/noindex/x/../priv"},
 }
 
 var protTargets = []string{
